@@ -729,6 +729,21 @@ C07_ExpSelfConsistent ==
     (IsSendVec /\ vec.exp.n = 1) => WellFormed([vec.exp.fr EXCEPT !.hop = HopDemanded(vec.exp.fr)], vec.exp.fr)
 
 -----------------------------------------------------------------------------
+(* No shared state.                                                          *)
+(* Every action of parts A and B reads and writes only the variables of its   *)
+(* own build -- cap, st, cur, res (the destination buffer) -- and its          *)
+(* parameters: Encode*, Marshal*, SetPayload and AppendPayload are functions   *)
+(* of their arguments and the destination buffer only.  Two builds therefore   *)
+(* compose as the product of two copies of this machine WITHOUT any common     *)
+(* variable: whatever the interleaving, each copy reaches exactly the terminal *)
+(* states it reaches alone, i.e. every case exported here has the same         *)
+(* expected result when other encoder calls run at the same time.  BuildFrame  *)
+(* states the frame condition on the model; the binding to the code is the     *)
+(* concurrent stage of the driver (wiredrv -concurrent): N goroutines execute  *)
+(* the exported cases in private buffers at once and each result is judged     *)
+(* against that goroutine's own supplied values.                               *)
+BuildFrame == [][(phase \in {"build", "done"} /\ phase' \in {"build", "done", "rewritten", "stop"}) => vec' = vec]_vars
+
 Init == /\ phase = "idle" /\ cap = 0 /\ st = <<>> /\ cur = 0 /\ res = "ok" /\ hist = <<>> /\ vec = Nil
 
 \* guards first: a terminal state must not pay for the enumeration of the whole class product
